@@ -712,7 +712,7 @@ static void gen_bsearch(rng &r, bool th)
             {
                 std::vector<int> v(n);
                 int m = (int)r.pick(std::vector<int>{1, 2, 3, 5, n ? n : 1, 2 * n + 1, 12, 40});
-                for (auto &x : v) x = 2 + (int)r.below(m) * (r.chance(50) ? 2 : 1);
+                for (auto &x : v) x = 2 + ((int)r.below(m) * (r.chance(50) ? 2 : 1)) % 252; // an element's key is one byte
                 order_for(v, kind, r);
                 int lo = 0, hi = 3;
                 for (int x : v) hi = std::max(hi, x + 2);
